@@ -14,13 +14,14 @@ class RankFailed(Exception):
     pass
 
 
-def run(workers, recipe, rng: random.Random):
+def run(workers, recipe, rng: random.Random, faults=(), stop_after="tags"):
     """returns dict(status per rank, partitions, numbered, next_tags, texts,
     local violations, stats)"""
     n = recipe["nranks"]
     ws = workers[:n]
     for r, w in enumerate(ws):
-        w.send_cmd("rank_run", recipe=recipe, rank=r)
+        w.send_cmd("rank_run", recipe=recipe, rank=r, faults=list(faults),
+                   stop_after=stop_after)
     state = ["running"] * n
     pending: dict = {}
     results: dict = {}
@@ -33,7 +34,10 @@ def run(workers, recipe, rng: random.Random):
             if msg[0] == "coll":
                 pending[r] = msg
             elif msg[0] == "ok":
-                state[r] = "returned"
+                if isinstance(msg[1], dict) and "raised" in msg[1]:
+                    state[r] = "raised"
+                else:
+                    state[r] = "returned"
                 results[r] = msg[1]
             elif msg[0] == "exc":
                 state[r] = "raised"
